@@ -155,6 +155,10 @@ func keyringWorkload(r *sim.Run) {
 
 func dnsWorkload(r *sim.Run) {
 	t := r.T
+	if !fclient.VerifInternals {
+		r.Probe("degraded_dnscache_workload_skipped") // no resolver seam on this tree
+		return
+	}
 	size := t.Range(1, 4)
 	life := time.Duration(t.Range(1, 5)) * time.Millisecond
 	c := fclient.NewDNSCache(size, life, []string{"0.0.0.0/0"}, nil)
@@ -193,7 +197,7 @@ func tripperWorkload(r *sim.Run) {
 	}
 	defer func() { verifrt.DialHook = nil }()
 	opts := []fclient.ClientOption{fclient.WithWellKnownSRVLookups(false), fclient.WithSkipVerify(true), fclient.WithKeepAlives(t.Bool()), fclient.WithTimeout(2 * time.Second)}
-	if t.Bool() {
+	if t.Bool() && fclient.VerifInternals {
 		dc := fclient.NewDNSCache(t.Range(1, 3), 50*time.Millisecond, []string{"0.0.0.0/0"}, nil)
 		dc.VerifSetResolver(&safeResolver{})
 		opts = append(opts, fclient.WithDNSCache(dc))
